@@ -1374,7 +1374,8 @@ function translate_select_expression(select_expression) {
 
 function separate_string_literals(rbql_expression) {
     // The regex consists of 3 almost identicall parts, the only difference is quote type
-    var rgx = /('(\\(\\\\)*'|[^'])*')|("(\\(\\\\)*"|[^"])*")|(`(\\(\\\\)*`|[^`])*`)/g;
+    // The lookbehind makes sure that an escaped quote is preceded by an odd number of backslashes counted from the first one: "x\\\\" ends at its second quote (same as in the Python version)
+    var rgx = /('((?<!\\)(\\\\)*\\'|[^'])*')|("((?<!\\)(\\\\)*\\"|[^"])*")|(`((?<!\\)(\\\\)*\\`|[^`])*`)/g;
     var match_obj = null;
     var format_parts = [];
     var string_literals = [];
